@@ -421,13 +421,15 @@ package rtpconn
 //@   -- C10/C14: a member leaves through group.DelClient (never by just forgetting the group)
 //@   assert at call DelClient member: c.group != nil && ref(arg_c) == ref(c)
 //@ func parseRequested
-//@   trusted
-//@   why webclient.go: converts a decoded JSON value; no effect on program state
+//@   safe
+//@   props C12
 //@   modifies nothing
+//@   invariant loop 1 own: fresh(rrr) && !isnil(rrr)
 //@ func toStringArray
-//@   trusted
-//@   why webclient.go: converts a decoded JSON value; no effect on program state
+//@   safe
+//@   props C12
 //@   modifies nothing
+//@   invariant loop 1 own: fresh(rrr) && len(rrr) == len(rr) && -1 <= rangeindex && rangeindex < len(rr)
 //@ func parseStatefulToken
 //@   trusted
 //@   why webclient.go: builds a token from a decoded JSON value; no effect on program state
